@@ -143,6 +143,7 @@ def check(ctx):
             left, right = mk(lk, "L"), mk(rk, "R")
             ip.ext_overrides["builtins.isinstance"] = lambda I, a, k: _isinst(I, repo, a)
             comp = Obj(C, {}, label="comp")
+            needs_outcomes = {}
             try:
                 ip.call_function(f_init, [comp, left, right, ModRef("operator.sub")], {})
                 td = comp.attrs.get("time_dependent")
@@ -151,17 +152,36 @@ def check(ctx):
                        where=f_init.fq, construct=f"time_dependent ({lk},{rk})", loc=loc(f_init, f_init.node),
                        message=f"composite of ({lk}, {rk}) has time_dependent={td}",
                        consequence="the solver treats a time-dependent field as static (never re-evaluated) or vice versa")
-                for tval in (None, T.real("t")):
+                for tval, eq_outcome in [(tv_, oc_) for tv_ in (None, T.real("t")) for oc_ in (None, True, False)]:
+                    # two operands are arbitrary, independent parameters: whether they *compare* equal (same code, same keyword
+                    # arguments - two closures of one factory do) says nothing about their values.  A comparison between them that
+                    # the evaluation makes is followed with both outcomes, and the value must be right in both.
+                    if eq_outcome is None:
+                        ip.compare_policy = None
+                    else:
+                        if not needs_outcomes.get(str(tval)):
+                            continue
+                        ip.compare_policy = (lambda node, a_, b_, oc=eq_outcome: (oc if isinstance(node.ops[0], ast.Eq) else not oc)
+                                             if isinstance(node.ops[0], (ast.Eq, ast.NotEq)) else None)
                     calls.clear()
                     x, y, z = T.real("x"), T.real("y"), T.real("z")
-                    val = ip.call_function(f_call, [comp, x, y, z], {"t": tval})
+                    try:
+                        val = ip.call_function(f_call, [comp, x, y, z], {"t": tval})
+                    except Unsupported as e_:
+                        if eq_outcome is None and "undecidable comparison" in str(e_):
+                            needs_outcomes[str(tval)] = True
+                            continue
+                        raise
+                    finally:
+                        ip.compare_policy = None
 
                     def ev(kind, label):
                         if kind == "number":
                             return T.real(label + "_num")
                         return T.real(f"{label}(x,y,z{',t' if (kind == 'timedep' and tval is not None) else ''})")
                     want = ev(lk, "L") - ev(rk, "R")
-                    ctx.ob("R16.2", f"(L - R)(x,y,z,t={'t' if tval is not None else 'None'}) for ({lk}, {rk})",
+                    ctx.ob("R16.2", f"(L - R)(x,y,z,t={'t' if tval is not None else 'None'}) for ({lk}, {rk})" +
+                           ("" if eq_outcome is None else f" when the operands compare {'equal' if eq_outcome else 'unequal'}"),
                            isinstance(val, Rat) and val == want, detail={"got": str(val), "want": str(want), "calls": list(calls)},
                            where=f_call.fq, construct=f"__call__ ({lk},{rk},t={'given' if tval is not None else 'None'})",
                            loc=loc(f_call, f_call.node), message=f"composite evaluates to {val}, expected {want}",
